@@ -507,7 +507,13 @@ def oracle_lazy(line, impl):
 def known_class(line, impl):
     """D9: an accessor that returned Err has already consumed part of the child's bytes; put_buf then writes a shortened box"""
     if line.startswith("lazy ") and impl.startswith("err parse") and "step=parse" not in impl:
-        return "D9"
+        # the finding is: the bytes written are fewer than the bytes parsed (the failed parse consumed some). Its signature keeps
+        # encoded_len EQUAL to what is written; a length that disagrees with the bytes written is another violation, in the same histories
+        f = dict(tok.split("=", 1) for tok in impl.split() if "=" in tok)
+        put = f.get("put", "-")
+        n = 0 if put == "-" else len(put) // 2
+        if f.get("elen") == str(n):
+            return "D9"
     return None
 
 
